@@ -17,7 +17,7 @@ from .spaces import Typer, TIME, TIMER
 
 rule("C01.g", "a dispatch factor written inside a loop does not depend on the factor written in the previous iteration "
               "(the row object is created afresh per iteration, or the factor is computed from the source row)", floor=2,
-     props=["C01", "C13"])
+     props=["C01", "C13", "C02"])     # C02: a transport with an own coarser frequency carries its efficiency in that factor
 rule("C13.e", "the minor-grid weight is dt(full grid)[emitted minor step] / dt(restricted grid)[major interval]: numerator "
               "indexed by the same step that is written to time_step of the emitted row", floor=2, props=["C13", "C12"])
 
